@@ -305,6 +305,7 @@ def standin_vendor_counts(tier, seed):
     import random
 
     import cirq
+    import numpy as np
 
     F = "cirq-ionq/cirq_ionq/results.py:QPUResult.to_cirq_result"
     try:
@@ -352,6 +353,23 @@ def standin_vendor_counts(tier, seed):
             fails.append(dict(args=args, failed="vendor-counts", clause=problem))
             if len(fails) >= 3:
                 break
+    # probabilities of whole-register outcomes sampled into rows (IonQ SimulatorResult), registers up to 70 qubits: every row is one of the outcomes,
+    # read on the key's targets; integer dtype and integer histogram keys whatever the width
+    for n_w, outcomes, md in ((5, [0b10011, 0b00100], {"m": [0, 3, 4]}), (63, [(1 << 62) + 1, 2], {"m": [0, 61, 62]}), (64, [1 << 63, (1 << 63) + 1, 1], {"m": [0, 1, 63], "k": [63]}),
+                              (70, [(1 << 69) + 2, 1 << 68], {"m": [0, 1, 68, 69]})):
+        cases += 1
+        try:
+            sr = cirq_ionq.SimulatorResult({v_: 1.0 / len(outcomes) for v_ in outcomes}, n_w, {k: list(t) for k, t in md.items()}, repetitions=12)
+            res = sr.to_cirq_result(seed=rng.randrange(100))
+        except Exception as ex:
+            fails.append(dict(args=dict(num_qubits=n_w, outcomes=outcomes, measurement_dict=md), failed="vendor-wide-probabilities", clause=f"SimulatorResult.to_cirq_result raised {ex!r}"))
+            continue
+        allowed = {tuple(tuple((v_ >> (n_w - 1 - t)) & 1 for t in md[k]) for k in md) for v_ in outcomes}
+        rows = {tuple(tuple(int(b) for b in res.measurements[k][r_]) for k in md) for r_ in range(res.repetitions)}
+        hist_keys_int = all(isinstance(h_, (int, np.integer)) for k in md for h_ in res.histogram(key=k))
+        if not rows <= allowed or not hist_keys_int or any(res.measurements[k].dtype.kind not in "iu" for k in md):
+            fails.append(dict(args=dict(num_qubits=n_w, outcomes=outcomes, measurement_dict=md, rows=sorted(rows)[:4]), failed="vendor-wide-probabilities",
+                              clause=f"rows sampled from a {n_w}-qubit simulator result are not outcomes of the register read on the targets (or are not integers)"))
     # the conversion of the service's little-endian outcome keys, for registers wider than a machine word
     try:
         from cirq_ionq import job as _job
